@@ -6,19 +6,25 @@
    realtime/imported mix; an agent joining mid-run) and over EVERY engine partition of two
    sensors / two targets with every observation set (cross-engine observations, shared targets):
    ImportFaithful, NoStaleState (a gap must raise), ObsReachFilter (exactly once),
-   ImporterReadOnly.  Four named deviations must each yield a counterexample: CountBasedCheck
-   (D9), SkipEpochWithoutRow, LoadEveryEngine (D28), LoadOnlyOwnTargets.
+   RunContinues (only MissingEphemerisError stops a run), ImporterReadOnly (rows and schema).
+   The observation table is a BAG (a row may be stored twice: delivered once, the run goes on);
+   the importer file has the full schema or only the tables an importer reads.  Seven named
+   deviations must each yield a counterexample: CountBasedCheck (D9), SkipEpochWithoutRow,
+   LoadEveryEngine (D28), LoadOnlyOwnTargets, CrashOnDuplicate, KeepDuplicates,
+   CreateMissingTables.
 2. impl -> spec: a real realtime run produces a source database; importer databases are DERIVED
    from it with plain sqlite3 (exact copy; supersets with unrelated agents; subsets with a gap
    at a chosen epoch for a chosen registered agent, with and without unrelated extras; epochs
    removed ALTOGETHER - Epoch row and every record hanging on it: a hole, every other epoch, the
-   tail of the run, everything; thinned observation rows) and the REAL scenario is run against
+   tail of the run, everything; thinned observation rows; observation rows stored twice under a
+   new primary key; every table an importer never reads DROPPED + VACUUM) and the REAL scenario is run against
    each (targets imported / sensors imported / both; imported observations; one engine, two
    engines with the partition of the source run or ANOTHER one, so that the database holds
    observations whose sensor and target belong to different engines).  Per step the driver logs
    which database record each imported agent's state is bit-equal to, whether
    MissingEphemerisError was raised, what every engine loaded, the observations handed to every
-   EstUpdate job, and the SHA-256 of the importer file before and after; TLC validates the traces
+   EstUpdate job, and the SHA-256 and the schema objects (sqlite_master) of the importer file before
+   the run, after the scenario has been built and after the run; TLC validates the traces
    against TraceImporter.tla and names the formula a rejected trace breaks.
 """
 from __future__ import annotations
@@ -37,6 +43,11 @@ from ..core import Ctx
 
 LEVEL = "model_checking"
 UNRELATED = [77701, 77702, 77703]
+READ_TABLES = ("epochs", "agents", "truth_ephemerides", "observations")     # what an importer run reads
+
+
+class _Abandon(Exception):
+    pass
 
 
 def _sha(path):
@@ -143,8 +154,32 @@ def _derive(src, dst, var, fam):
         for i, rid in enumerate(rows):
             if i % var["drop_obs"] == 0:
                 cur.execute("DELETE FROM observations WHERE id = ?", (rid,))
+    # observation rows stored TWICE (same sensor, target, epoch, values; a new primary key): e.g. a run imported twice
+    if var.get("dup_obs"):
+        cols = [c[1] for c in cur.execute("PRAGMA table_info(observations)").fetchall() if c[1] != "id"]
+        rows = [r[0] for r in cur.execute("SELECT id FROM observations ORDER BY id")]
+        for i, rid in enumerate(rows):
+            if i % var["dup_obs"] == 0:
+                cur.execute(f"INSERT INTO observations ({', '.join(cols)}) SELECT {', '.join(cols)} FROM observations WHERE id = ?", (rid,))
     con.commit()
+    # a database written by a tool that only stores what an importer reads: every other table of the data model is dropped
+    if var.get("drop_tables"):
+        keep = set(READ_TABLES) - ({"observations"} if var["drop_tables"] == "unused+observations" else set())
+        for (t,) in cur.execute("SELECT name FROM sqlite_master WHERE type = 'table'").fetchall():
+            if t not in keep and not t.startswith("sqlite_"):
+                cur.execute(f"DROP TABLE {t}")
+        con.commit()
+        con.execute("VACUUM")
     con.close()
+
+
+def _schema(path):
+    """Every schema object of the SQLite file (type, name, table, SQL text)."""
+    con = sqlite3.connect(f"file:{path}?mode=ro", uri=True)
+    try:
+        return sorted((str(r[0]), str(r[1]), str(r[2]), str(r[3])) for r in con.execute("SELECT type, name, tbl_name, sql FROM sqlite_master"))
+    finally:
+        con.close()
 
 
 def _epoch_keys(path):
@@ -164,7 +199,9 @@ def _importer_tables(path, src_jds):
     for r in cur.execute("SELECT julian_date, agent_id, pos_x_km, pos_y_km, pos_z_km, vel_x_km_p_sec, vel_y_km_p_sec, vel_z_km_p_sec "
                          "FROM truth_ephemerides"):
         rows[(int(r[1]), kof[r[0]])] = tuple(float(x) for x in r[2:])
-    obs = [(kof[r[0]], int(r[1]), int(r[2])) for r in cur.execute("SELECT julian_date, target_id, sensor_id FROM observations")]
+    obs = []
+    if cur.execute("SELECT count(*) FROM sqlite_master WHERE type = 'table' AND name = 'observations'").fetchone()[0]:
+        obs = [(kof[r[0]], int(r[1]), int(r[2])) for r in cur.execute("SELECT julian_date, target_id, sensor_id FROM observations")]
     con.close()
     return rows, obs, epochs
 
@@ -180,7 +217,9 @@ def _run_variant(fam, var, src, workdir):
     dst = os.path.join(workdir, f"imp_{var['name']}.sqlite3")
     _derive(src, dst, var, fam)
     rows, obs, epochs = _importer_tables(dst, _epoch_keys(src))
-    before = _sha(dst)
+    before, schema_before = _sha(dst), _schema(dst)
+    from collections import Counter
+    n_obs = Counter(o for o in obs if o[0] >= 1)
     cfg = _base_cfg(fam, importer=True, mode=var["mode"], partition=var.get("partition", "family"))
     tids = list(dict.fromkeys(t["id"] for e in cfg["engines"] for t in e["targets"]))
     sids = [s["id"] for e in cfg["engines"] for s in e["sensors"]]
@@ -198,7 +237,9 @@ def _run_variant(fam, var, src, workdir):
               "targets": [A(i) for i in tids],
               "epochs": [k for k in epochs if k >= 1],
               "rows": sorted([A(a), k] for (a, k) in rows if k >= 1),
-              "obs": sorted([k, A(t), A(s)] for (k, t, s) in obs if k >= 1),
+              "obs": sorted([k, A(t), A(s)] for (k, t, s) in n_obs),
+              "dup": sorted([k, A(t), A(s)] for (k, t, s), n in n_obs.items() if n > 1),
+              "schema": "minimal" if var.get("drop_tables") else "full",
               "engines": [[e, [A(i) for i in ss], [A(i) for i in tt]] for e, ss, tt in engines],
               "nsteps": fam["nsteps"], "born": [[A(i), born.get(i, 0)] for i in tids + sids]}]
     state = {"k": 0, "raised": False, "updates": {}}
@@ -258,7 +299,14 @@ def _run_variant(fam, var, src, workdir):
     crashed = None
     try:
         np.random.seed(2)
-        app = su.build(cfg, importer_db_path=su.file_db_url(dst))
+        try:
+            app = su.build(cfg, importer_db_path=su.file_db_url(dst))
+        except Exception as ex:  # noqa: BLE001
+            crashed = f"{type(ex).__name__}: {ex}"[:300]
+            trace.append({"ev": "Crash", "error": crashed})
+            raise _Abandon from None
+        # every ImporterDatabase object of the run exists now (engines, ephemeris importer)
+        trace.append({"ev": "Open", "unchanged": _sha(dst) == before, "schema_unchanged": _schema(dst) == schema_before})
         state["app"] = app
         sched.set_chooser(None)
         orig_step = app.stepForward
@@ -281,6 +329,8 @@ def _run_variant(fam, var, src, workdir):
         except Exception as ex:  # noqa: BLE001
             crashed = f"{type(ex).__name__}: {ex}"[:300]
             trace.append({"ev": "Crash", "error": crashed})
+    except _Abandon:
+        pass
     finally:
         EphemerisImporter.importEphemerides = orig_import
         eu.EstUpdateRegistration.generateSubmission = orig_gen
@@ -290,7 +340,9 @@ def _run_variant(fam, var, src, workdir):
             clearDBPath()
         except Exception:  # noqa: BLE001
             pass
-    trace.append({"ev": "EndRun", "unchanged": _sha(dst) == before})
+    schema_after = _schema(dst)
+    trace.append({"ev": "EndRun", "unchanged": _sha(dst) == before, "schema_unchanged": schema_after == schema_before,
+                  "created": sorted(f"{t} {n}" for t, n, _, _ in set(schema_after) - set(schema_before))[:40]})
     return {"variant": var, "trace": trace, "crashed": crashed}
 
 
@@ -351,6 +403,14 @@ def make_families(ctx: Ctx, rng):
         variants.append({"name": "thin_obs", "mode": "tso", "drop_obs": 2})
         variants.append({"name": "thin_obs3_extras", "mode": "o", "drop_obs": 3, "extras": 1})
         variants.append({"name": "extras_gap", "mode": "ts", "extras": 2, "extras_gap": 2})
+        # observation rows stored twice: the duplicate is dropped, the run goes on
+        variants.append({"name": "dup_obs_tso", "mode": "tso", "dup_obs": 2})
+        variants.append({"name": "dup_obs3_t_extras", "mode": "t", "dup_obs": 3, "extras": 1})
+        # importer files that hold only the tables an importer reads (the last one not even an observation table)
+        variants.append({"name": "minimal_ts", "mode": "ts", "drop_tables": "unused"})
+        variants.append({"name": "minimal_o_extras", "mode": "o", "drop_tables": "unused", "extras": 1})
+        variants.append({"name": "minimal_gap_t2_t", "mode": "t", "drop_tables": "unused", "gaps": [["t", 0, 2]]})
+        variants.append({"name": "minimal_noobs_t", "mode": "t", "drop_tables": "unused+observations"})
         # an epoch absent ALTOGETHER (no Epoch row, no record of any agent): a hole in the middle, the tail
         variants.append({"name": "hole2_ts_extras", "mode": "ts", "drop_epochs": [2], "extras": 1})
         variants.append({"name": f"ends{n - 1}_t", "mode": "t", "drop_epochs": [n]})
@@ -383,7 +443,9 @@ def make_families(ctx: Ctx, rng):
     fams.append({"start": "2018-12-01T12:00:00", "step": 60, "nsteps": 3, "nt": 2, "ns": 4, "src_partition": "split",
                  "variants": [{"name": "exact_tso_2eng", "mode": "tso"}, {"name": "exact_o_2eng", "mode": "o"},
                               {"name": "superset_ts_2eng", "mode": "ts", "extras": 1},
-                              {"name": "exact_o_2eng_swapped", "mode": "o", "partition": "swapped"}]})
+                              {"name": "exact_o_2eng_swapped", "mode": "o", "partition": "swapped"},
+                              {"name": "dup_obs_o_2eng", "mode": "o", "dup_obs": 2},
+                              {"name": "minimal_tso_2eng", "mode": "tso", "drop_tables": "unused"}]})
     # a database produced by a ONE-engine run, read by two-engine scenarios: it holds observations whose sensor and target
     # now belong to different engines (disjoint networks either way round; a target shared by both engines)
     specs = [("2018-12-01T12:00:00", 60, 3)] + ([] if ctx.quick else [("2019-12-31T23:58:07", 300, 4)])
@@ -392,6 +454,8 @@ def make_families(ctx: Ctx, rng):
                     for part in ("split", "swapped", "shared") for mode in (("o", "tso") if part != "shared" or not ctx.quick else ("o",))]
         variants.append({"name": "xeng_split_thin_obs", "mode": "o", "partition": "split", "drop_obs": 3, "extras": 1})
         variants.append({"name": "xeng_swapped_hole2_o", "mode": "o", "partition": "swapped", "drop_epochs": [2]})
+        variants.append({"name": "xeng_split_dup_obs_o", "mode": "o", "partition": "split", "dup_obs": 2})
+        variants.append({"name": "xeng_shared_dup_obs3_tso", "mode": "tso", "partition": "shared", "dup_obs": 3})
         fams.append({"start": start, "step": step, "nsteps": n, "nt": 2, "ns": 4, "cross_engine": True, "variants": variants})
     return fams
 
@@ -400,13 +464,18 @@ def run(ctx: Ctx):
     rng = random.Random(ctx.seed + 1919)
     ctx.rule = ("one case = one real run against one derived importer database (mode t/s/o = targets / sensors / observations "
                 "imported; exact, superset, gap at (agent, epoch) with or without unrelated extras, whole epochs absent from the database "
-                "- hole / every other epoch / tail / all -, thinned observations; one engine, two engines partitioned as in the "
+                "- hole / every other epoch / tail / all -, thinned observations, observation rows stored twice, importer files holding "
+                "only the tables an importer reads; one engine, two engines partitioned as in the "
                 "source run or differently: cross-engine observations, shared targets); "
                 "non-trivial = anything but the exact copy; distinct by (family, variant)")
     ctx.assumptions = ["importer databases are derived from a real output database with plain sqlite3",
                        "an epoch is 'absent' when its Epoch row and every record hanging on it are deleted (dangling records without "
                        "an Epoch row are not posed: the statement does not say whether they are records of that epoch)",
                        "which engine carries an imported observation to the filter is not bound, only that it arrives exactly once",
+                       "a duplicated observation row is an exact copy of a stored row under a new primary key; it must reach the filter "
+                       "once (the code's documented intent: 'Dropped duplicate observation') and must not stop the run",
+                       "the importer database is consistent with its own foreign keys (an observation whose sensor or target has no "
+                       "row in the agents table is not posed)",
                        "an agent's state is matched to importer rows by exact float equality of all six components"]
     # the designed specification must hold over the whole configuration space (with full action coverage); each named
     # deviation must be refuted by the invariant that states the clause it breaks
@@ -414,13 +483,16 @@ def run(ctx: Ctx):
           ("MCImporter_coded.cfg", {"ImportFaithful", "NoStaleState"}),
           ("MCImporter_skipepoch.cfg", {"ImportFaithful", "NoStaleState"}),
           ("MCImporter_everyengine.cfg", {"ObsReachFilter"}),
-          ("MCImporter_owntargets.cfg", {"ObsReachFilter"})]
+          ("MCImporter_owntargets.cfg", {"ObsReachFilter"}),
+          ("MCImporter_crashdup.cfg", {"RunContinues"}),
+          ("MCImporter_keepdup.cfg", {"ObsReachFilter"}),
+          ("MCImporter_createtables.cfg", {"ImporterReadOnly"})]
     fams = make_families(ctx, rng)
     w = max(2, ctx.cpus // 4)
     dirs = {name: ctx.sub(name[:-4]) for name, _ in mc}
     # TLC runs and scenario families share one process pool (no threads in this process: forking a process that runs
     # threads can dead-lock the children); the long jobs go first
-    with ProcessPoolExecutor(max_workers=min(ctx.cpus, len(fams) + len(mc), 10)) as ex:
+    with ProcessPoolExecutor(max_workers=min(ctx.cpus, len(fams) + len(mc), 12)) as ex:
         futs = [ex.submit(_run_mc, name, str(dirs[name]), ctx.cpus if not expect and not ctx.quick else w, not expect) for name, expect in mc]
         results = list(ex.map(_run_family, sorted(fams, key=lambda f: -len(f["variants"]))))
         tlc_results = [f.result() for f in futs]
@@ -431,7 +503,7 @@ def run(ctx: Ctx):
         if (expect and not (viol and viol <= expect)) or (not expect and viol):
             raise tlc.MachineryError(f"{name}: expected violation of {sorted(expect) or 'nothing'}, got {sorted(viol)}")
         if not expect:
-            actions = ("BeginStep", "ImportOk", "SkipImport", "ImportMissing", "LoadObsSome", "UpdateFilters", "EndStep")
+            actions = ("OpenImporter", "BeginStep", "ImportOk", "SkipImport", "ImportMissing", "LoadObsSome", "UpdateFilters", "EndStep")
             taken = {a: res.coverage.get(f"Importer!{a}", (0, 0))[0] for a in actions}
             ctx.extra["spec_action_coverage"] = taken
             if not all(taken.values()):
@@ -462,7 +534,7 @@ def run(ctx: Ctx):
         m = re.findall(r"/\\ tid = (\d+)", "\n".join(states))
         if m:
             inv.setdefault(int(m[-1]), name)
-    n_raise = n_absent_raise = n_cross = n_cross_runs = 0
+    n_raise = n_absent_raise = n_cross = n_cross_runs = n_dup_once = n_minimal = 0
     for i, (fam, run_) in enumerate(owners):
         var = run_["variant"]
         ctx.case((json.dumps(fam, sort_keys=True), var["name"]), nontrivial=not var["name"].startswith("exact"),
@@ -478,16 +550,19 @@ def run(ctx: Ctx):
         delivered = {tuple(o) for e in run_["trace"] if e["ev"] == "LoadObs" for _, lst in e["reached"] for o in lst}
         n_cross += len(cross & delivered)
         n_cross_runs += bool(cross & delivered)
+        n_dup_once += len({tuple(o) for o in c0["dup"]} & delivered)
+        n_minimal += c0["schema"] == "minimal"
         pos = reached[i + 1]
         ok = pos == len(traces[i]) + 1 and (i + 1) not in inv
         if not ok:
             ev = traces[i][pos - 1] if pos <= len(traces[i]) else {}
             kind = "absent-epoch" if var.get("drop_epochs") else "gap" if var.get("gaps") else ("thinobs" if var.get("drop_obs") else "complete")
+            kind = ("dup-obs+" if c0["dup"] else "") + ("minimal-schema+" if var.get("drop_tables") else "") + kind
             if len(c0["engines"]) > 1:
                 kind += "+cross-engine-obs" if cross else "+several-engines"
             extras = "with-unrelated" if var.get("extras") else "no-unrelated"
             reason = why.get(i + 1)
-            what = inv.get(i + 1) or ("crash" if ev.get("ev") == "Crash" else reason or f"unexplained-{ev.get('ev', 'end')}")
+            what = inv.get(i + 1) or reason or ("crash" if ev.get("ev") == "Crash" else f"unexplained-{ev.get('ev', 'end')}")
             sig = f"importer:{kind}:{extras}:{what}"
             ctx.violation(sig, f"{sig}: variant {json.dumps(var)} of family {json.dumps(fam)} at trace line {pos}: {json.dumps(ev)[:300]}",
                           {"family": dict(fam, variants=[{k: v for k, v in var.items()}]), "trace": traces[i]})
@@ -495,10 +570,13 @@ def run(ctx: Ctx):
     ctx.extra["runs_that_raised_at_an_epoch_absent_from_the_importer"] = n_absent_raise
     ctx.extra["cross_engine_observations_delivered"] = n_cross
     ctx.extra["runs_with_cross_engine_observations_delivered"] = n_cross_runs
+    ctx.extra["observations_stored_twice_that_were_delivered"] = n_dup_once
+    ctx.extra["runs_against_an_importer_file_with_only_the_tables_an_importer_reads"] = n_minimal
     if n_raise == 0:
         raise tlc.MachineryError("no derived database made the run raise MissingEphemerisError (gap derivation ineffective)")
-    if not ctx.violations and (n_absent_raise == 0 or n_cross == 0):
-        raise tlc.MachineryError(f"vacuous: runs raising at an absent epoch = {n_absent_raise}, cross-engine observations delivered = {n_cross}")
+    if not ctx.violations and (n_absent_raise == 0 or n_cross == 0 or n_dup_once == 0 or n_minimal == 0):
+        raise tlc.MachineryError(f"vacuous: runs raising at an absent epoch = {n_absent_raise}, cross-engine observations delivered = {n_cross}, "
+                                 f"stored-twice observations delivered = {n_dup_once}, minimal-schema runs = {n_minimal}")
 
 
 def replay(ctx: Ctx, rp: dict):
